@@ -125,6 +125,7 @@ class Ctx:
         self.dir = tempfile.mkdtemp(prefix='c16_')
         self.k = 0
         self.cases = []
+        self.long_text, self.long_load = [], []
         self.errs, self.nerr = {}, {}
 
     def path(self):
@@ -315,6 +316,98 @@ def same_path_sequences(ctx, rng, tier):
             pass
 
 
+RULE += ('; long records (more than 50000 samples: 50001..120000, one per quick run, four per thorough run; all value styles): saved with save_signal / save_values_and_dt, every loader entry point called; '
+         'compared inside Coq in sparse form: number of lines of the file = npts + 2, the two header lines, and at ~60 positions (first, last, around every multiple of 50000, of 10000 and of 1000 sampled, random) '
+         'the line of the file against the model writer, the loaded value against the model reader of that line (exactly) and against the saved value (6 decimals times m), plus npts, length, dt, label and type')
+
+
+def long_positions(rng, n):
+    pos = {0, 1, 2, n - 3, n - 2, n - 1, n // 2}
+    for b in range(50000, n + 1, 50000):
+        pos |= {b - 2, b - 1, b, b + 1}
+    for b in rng.sample(range(10000, n, 10000), min(3, len(range(10000, n, 10000)))) + rng.sample(range(1000, n, 1000), 4):
+        pos |= {b - 1, b}
+    pos |= {rng.randrange(n) for _ in range(24)}
+    return sorted(i for i in pos if 0 <= i < n)
+
+
+def long_records(ctx, rng, tier):
+    """records of more than 50000 samples (5 minutes at 200 Hz is 60000): the full text / value lists are too long for the
+    byte-for-byte cases, so the file and what each loader returns are shipped in sparse form (K_C16.chk_long_text / chk_long_load)"""
+    import eqsig
+    from eqsig import loader
+    rep = ctx.rep
+    lens = [rng.choice([50001, 50002, 60000, 72000])] if tier == 'quick' else [50001, 60000, 100001, rng.randint(50001, 120000)]
+    for k, n in enumerate(lens):
+        vals, style = gen_values(rng, n)
+        dt, dstyle = gen_dt(rng)
+        label = gen_label(rng)
+        how = ['acc', 'sig', 'values'][(k + n) % 3]
+        ffp, text = save_one(ctx, rng, label, dt, vals, how)
+        if ffp is None:
+            continue
+        lines = text.split('\n')
+        pos = long_positions(rng, n)
+        line_at = lambda i: lines[2 + i] if 2 + i < len(lines) else ''
+        saved_from = {'label': label, 'dt': dt, 'npts': n, 'values': [float(x) for x in vals], 'saved_with': how}
+        try:
+            samples = '[' + '; '.join('((%d)%%Z, (%s, %s), %s)' % (i, cbool(is_negzero(vals[i])), q(vals[i]), cstr(line_at(i))) for i in pos) + ']'
+            coq = '(%s, %s, (%d)%%Z, (%d)%%Z, %s, %s, %s)' % (cstr(label), q(dt), n, len(lines), cstr(lines[0]), cstr(lines[1] if len(lines) > 1 else ''), samples)
+            ctx.long_text.append(Case(coq, {'function': 'save_signal', 'args': {'saved_from': saved_from, 'file_text': text},
+                                            'impl': {'lines_in_file': len(lines), 'sampled_positions': pos, 'lines_at_sampled_positions': [line_at(i) for i in pos]}},
+                                      'save_signal[long record]', nontrivial=True, klass='long/%s/%s' % (style, dstyle)))
+        except ValueError as e:
+            rep.violation('save_signal[long record]', {'function': 'save_signal', 'args': {'saved_from': saved_from}, 'impl': 'unshippable file text: %s' % e})
+        calls = [(0, None, None, None), (1, rng.choice(['signal', 'acc_sig']), None, None), (2, None, gen_m(rng), None), (3, None, gen_m(rng), True)]
+        if tier == 'quick':
+            calls = [calls[0]] + rng.sample(calls[1:], 2)
+        for entry, astype, m, wl in calls:
+            kw = {}
+            if entry == 0:
+                site, fn = 'load_values_and_dt', loader.load_values_and_dt
+            elif entry == 1:
+                site, fn, kw = 'load_signal[astype=%s]' % astype, loader.load_signal, {'astype': astype}
+            elif entry == 2:
+                site, fn = 'load_sig[m]', loader.load_sig
+            else:
+                site, fn, kw = 'load_asig[load_label=True,m]', loader.load_asig, {'load_label': wl}
+            if m is not None:
+                kw['m'] = m
+            args = {'file_text': text, 'saved_from': saved_from, 'call': site, 'kwargs': dict(kw)}
+            r = guarded(fn, ffp, **kw)
+            if isinstance(r, ImplError):       # an exception on a file save_signal wrote is a violation; smallest witness per entry point
+                cur = ctx.errs.get(site)
+                if cur is None or len(text) < len(cur['args']['file_text']):
+                    ctx.errs[site] = {'function': site, 'args': args, 'impl_error': str(r)}
+                ctx.nerr[site] = ctx.nerr.get(site, 0) + 1
+                continue
+            site += ' [long record]'
+            if entry == 0:
+                ovals, odt = r
+                okind, olabel, onpts = 0, '', len(np.atleast_1d(ovals))
+            else:
+                okind = 2 if type(r) is eqsig.AccSignal else (1 if type(r) is eqsig.Signal else 9)
+                ovals, odt, olabel, onpts = r.values, r.dt, r.label, int(r.npts)
+            ovals = np.asarray(ovals)
+            if ovals.ndim != 1 or not isinstance(olabel, str):
+                rep.violation(site, {'function': site, 'args': args, 'impl': 'values of shape %r, label %r' % (ovals.shape, olabel)})
+                continue
+            try:
+                smp = '[' + '; '.join('((%d)%%Z, %s, %s, %s)' % (i, q(vals[i]), cstr(line_at(i)), q(ovals[i] if i < len(ovals) else 0.0)) for i in pos) + ']'
+                coq = ('{| g_n := (%d)%%Z; g_dt := %s; g_label := %s; g_entry := %d%%nat; g_astype := %s; g_m := %s; g_want_label := %s; g_l0 := %s; g_l1 := %s; g_samples := %s; '
+                       'h_kind := %d%%nat; h_len := (%d)%%Z; h_npts := (%d)%%Z; h_dt := %s; h_label := %s |}'
+                       % (n, q(dt), cstr(label), entry, cstr(astype or 'sig'), q(1.0 if m is None else m), cbool(bool(wl)), cstr(lines[0]), cstr(lines[1] if len(lines) > 1 else ''), smp,
+                          okind, len(ovals), onpts, q(odt), cstr(olabel)))
+            except ValueError as e:
+                rep.violation(site, {'function': site, 'args': args, 'impl': 'unshippable output: %s' % e})
+                continue
+            ctx.long_load.append(Case(coq, {'function': site, 'args': args,
+                                            'impl': {'type': {0: 'tuple', 1: 'Signal', 2: 'AccSignal'}.get(okind, 'other'), 'npts': onpts, 'len': len(ovals), 'dt': float(odt), 'label': olabel,
+                                                     'sampled_positions': pos, 'values_at_sampled_positions': [float(ovals[i]) if i < len(ovals) else None for i in pos]}},
+                                      site, nontrivial=True, klass='long/%s/%s' % (style, dstyle)))
+        os.remove(ffp)
+
+
 def regen_c16():
     """re-translate save_values_and_dt / save_signal / load_values_and_dt / load_signal / load_sig / load_asig (eqsig/loader.py)
     and the constructor defaults of eqsig/single.py into coq/gen/Gen_c16.v (fail closed): the `C16_*_is_source` theorems of
@@ -363,6 +456,7 @@ def run(rep, rng, tier):
                 handmade(ctx, rng, text, tier)
             os.remove(ffp)
         same_path_sequences(ctx, rng, tier)
+        long_records(ctx, rng, tier)
         # the shipped test file (exponent notation), load only
         src = os.path.join(os.path.dirname(os.path.dirname(os.path.abspath(__file__))), 'data', 'test_motion_dt0p01.txt')
         lines = open(src).read().split('\n')
@@ -378,6 +472,12 @@ def run(rep, rng, tier):
     for site, replay in sorted(ctx.errs.items()):
         rep.violation(site, replay, n_failing=ctx.nerr[site])
     report(rep, ctx.cases)
+    longs = []
+    for ctor, lst in (('LText', ctx.long_text), ('LLoad', ctx.long_load)):
+        for c in lst:
+            c.coq = '(%s %s)' % (ctor, c.coq)
+            longs.append(c)
+    rep.correspond('model.K_C16', 'chk_long', longs)
 
 
 def report(rep, cases):
@@ -424,6 +524,14 @@ def replay_call(replay):
     d = tempfile.mkdtemp(prefix='c16r_')
     try:
         ffp = os.path.join(d, 'f.txt')
+        if 'call' not in a:      # the writer alone (long record): save again, report the shape of the file
+            sf = a['saved_from']
+            r = guarded(loader.save_values_and_dt, ffp, sf['values'], sf['dt'], sf['label'])
+            if isinstance(r, ImplError):
+                return {'impl_error': str(r)}
+            with open(ffp, newline='') as f:
+                t = f.read()
+            return {'lines_in_file': len(t.split('\n')), 'npts_saved': len(sf['values']), 'same_text_as_recorded': t == a.get('file_text')}
         for prev in (replay.get('same_path_sequence') or {}).get('earlier_saves_to_this_path_(each_followed_by_loads)', []):
             with open(ffp, 'w', newline='') as f:      # earlier rounds of a same-path sequence: same text, loaded through every entry point
                 f.write(prev['file_text'])
